@@ -33,10 +33,25 @@ pub struct Case {
 
 pub struct C09;
 
-pub const TIME_ZONES: [&str; 5] = ["UTC", "Europe/Stockholm", "America/Sao_Paulo", "Pacific/Apia", "Australia/Lord_Howe"];
+/// tape words from fuzzer bytes (little endian, 4 bytes per word)
+pub fn words_from_bytes(data: &[u8]) -> Vec<u32> {
+    data.chunks(4)
+        .map(|c| {
+            let mut b = [0u8; 4];
+            b[..c.len()].copy_from_slice(c);
+            u32::from_le_bytes(b)
+        })
+        .collect()
+}
+
+pub const TIME_ZONES: [&str; 6] = ["UTC", "Europe/Stockholm", "America/Sao_Paulo", "Pacific/Apia", "Australia/Lord_Howe", "America/Havana"];
 
 /// local times that do not exist or are ambiguous in one of the zones above
-const DST_TIMES: [&str; 12] = [
+const DST_TIMES: [&str; 15] = [
+    "2021-03-14 00:30:00", // Havana: the transition is at local midnight
+    "2021-03-14 12:00:00",
+    "2021-11-07 00:30:00", // Havana overlap
+
     "2021-03-28 02:30:00", // Stockholm gap
     "2021-10-31 02:30:00", // Stockholm overlap
     "2018-11-04 00:30:00", // Sao Paulo gap at midnight
@@ -94,7 +109,7 @@ impl Property for C09 {
         "accepted (definition, query) pairs from the C01-C05 generators with the hazard dial turned up (i64 extremes as literals and data, / 0, unary minus and abs of i64::MIN, pow, subscripts 0 / negative / huge, \
          SUM / AVG / STDDEV over extremes, PERCENTILE at 0 and 1, HAVING over all-NULL groups, NaN and infinities from REAL arithmetic and from the texts NaN / inf in data, text -> timestamp casts, TIMESTAMP columns and \
          date_trunc at local times that do not exist or are ambiguous) x input turned into arbitrary bytes (invalid UTF-8, NUL, 100 kB lines, no final newline, random tails) x output formats text / json / csv x the time zones \
-         UTC, Europe/Stockholm, America/Sao_Paulo, Pacific/Apia, Australia/Lord_Howe (one supervised child process per zone). Oracle: the batch executor and the per-line engine return (Ok or Err) without panic, abort or hang; \
+         UTC, Europe/Stockholm, America/Sao_Paulo, Pacific/Apia, Australia/Lord_Howe, America/Havana (one supervised child process per zone). Oracle: the batch executor and the per-line engine return (Ok or Err) without panic, abort or hang; \
          the harness is built with overflow checks, so a silent wrap is a panic (exact-or-error of INT results is judged by C03's evaluator in its hazard mode). Pairs the parser rejects are counted, not executed. \
          Non-trivial: an accepted pair executed over >= 1 admitted line; distinct by case."
             .to_string()
@@ -230,7 +245,7 @@ impl Property for C09 {
                     let e = match t.draw(9) {
                         0 => E::call("date_trunc", vec![E::Str(t.pick(&["year", "month", "day", "hour", "minute", "second"]).to_string()), base]),
                         1 => E::Extract(t.pick(&["EPOCH", "YEAR", "MONTH", "DAY", "HOUR", "MINUTE", "SECOND"]).to_string(), Box::new(base)),
-                        2 => E::bin(BinOp::Add, base, E::cast(E::Str(t.pick(&["0:30:00", "1:00:00", "24:00:00", "9999999:00:00"]).to_string()), "interval")),
+                        2 => E::bin(BinOp::Add, base, E::cast(E::Str(t.pick(&["0:30:00", "1:00:00", "24:00:00", "9999999:00:00", "99999999999999:00:00", "0:999999999999999999:0", "0:0:9223372036854775807", "-1:00:00"]).to_string()), "interval")),
                         3 => E::bin(BinOp::Sub, base, E::cast(E::Str(t.pick(&["0:30:00", "1:00:00", "24:00:00"]).to_string()), "interval")),
                         4 => E::bin(BinOp::Sub, base, tsx(t)),
                         5 => E::bin(*t.pick(&BinOp::CMP), base, E::Str(t.pick(&DST_TIMES).to_string())),
